@@ -28,8 +28,19 @@ def kidDid (tok : List Char) : Option String :=
     | none => none
   | _ => none
 
-def docOf (did : String) : Option (List VM) :=
-  if did == "did:test:iss" then some doc else if did == "did:test:other" then some otherDoc else none
+/-- did:key documents: one verification method, whose fragment is the fingerprint the DID consists of. `dk` lists the
+    fingerprints of the harness keys (`name:fingerprint`, from the output line) -/
+def didKeyDoc (dk : List (String × String)) (did : String) : Option (List VM) :=
+  if did.startsWith "did:key:" then
+    let fp := (did.drop 8).toString
+    (dk.find? (·.2 == fp)).map fun (name, _) => [⟨fp, name, "ed", false⟩]
+  else none
+
+def docOf (did : String) (dk : List (String × String) := []) : Option (List VM) :=
+  if did == "did:test:iss" then some doc else if did == "did:test:other" then some otherDoc else didKeyDoc dk did
+
+def parseDK (s : String) : List (String × String) :=
+  (s.splitOn ",").filterMap fun e => match e.splitOn ":" with | [n, fp] => some (n, fp) | _ => none
 
 def hexToNats (s : String) : Option (List Nat) := (parseHex s).map fun bs => bs.map (·.toNat)
 
@@ -52,10 +63,13 @@ def parseRec (s : String) : Option Rec :=
   | _ => none
 
 def entryOf : String → Option Entry
-  | "jws" => some .jws | "jwt" => some .jwt | "did" => some .did | "pk" => some .pk | _ => none
+  | "jws" => some .jws | "jwt" => some .jwt | "did" => some .did | "pk" => some .pk
+  -- a JWT credential through verifiable.ParseCredential: jwt.Parse with the signature verifier underneath
+  | "vc" => some .jwt | "vcn" => some .jwt | _ => none
 
 /-- the conclusion of `C08_sound`, evaluated on what was accepted -/
-def specAccepts (entry : Entry) (pk : Option VM) (recs : List Rec) (tok : List Char) (det : Option Bytes) : Bool :=
+def specAccepts (entry : Entry) (pk : Option VM) (recs : List Rec) (tok : List Char) (det : Option Bytes)
+    (dk : List (String × String) := []) : Bool :=
   match splitDots tok with
   | [hs, ps, ss] =>
     match (B64.decodeLenient hs).bind fun hb => (bytesToString hb).bind Base.J.parse with
@@ -69,7 +83,7 @@ def specAccepts (entry : Entry) (pk : Option VM) (recs : List Rec) (tok : List C
           let vm : Option VM := match entry with
             | .pk => pk
             | _ => match (headerStr h "kid").map (·.splitOn "#") with
-              | some (did :: frag :: _) => (docOf did).bind fun d => d.find? (·.frag == frag)
+              | some (did :: frag :: _) => (docOf did dk).bind fun d => d.find? (·.frag == frag)
               | _ => none
           match vm with
           | none => false
@@ -116,12 +130,16 @@ def judge (input impl : String) : String × String :=
         let det : Option Bytes := if detS == "-" then none else hexToNats detS
         let recs := if recS == "-" then [] else (parseRec recS).toList
         let pk := doc.find? (·.frag == vmS)
+        let dk := ((field words "dk").map parseDK).getD []
         let ctx : Ctx := match kidDid tok with
           | some "did:test:other" => ⟨e, otherDoc, "did:test:other", pk, recs⟩
+          | some d => match didKeyDoc dk d with
+            | some dd => ⟨e, dd, d, pk, recs⟩
+            | none => ⟨e, doc, "did:test:iss", pk, recs⟩
           | _ => ⟨e, doc, "did:test:iss", pk, recs⟩
         let m := if parse ctx tok det then "acc" else "rej"
         let modelCol := if m == res then "=" else s!"model: res={m}"
-        let specCol := if res == "acc" && !specAccepts e pk recs tok det
+        let specCol := if res == "acc" && !specAccepts e pk recs tok det dk
           then "ACCEPTED-WITHOUT-A-VALID-SIGNATURE-BY-THE-RESOLVED-KEY-OVER-THE-RECEIVED-BYTES" else "="
         (modelCol, specCol)
       | _, _, _, _ => (if impl == "bad-input" then "=" else "unparsable-output", "=")
